@@ -62,7 +62,8 @@ RULE = ('cases: every seed object under seeds/c11 and every ELF under test/testf
         'the stock load_from_path loader on files in a temporary directory with ASCII / UTF-8 / non-UTF-8 link and directory names; '
         'DWARF 5 line tables naming directories/files by strp_sup / GNU_strp_alt into a supplementary file holding both string sections, '
         'against the plain table; relocate_dwarf_sections drawn independently of follow_links through links to relocatable objects; '
-        'legacy/gABI declared sizes off by multiples of 2^32 and 2^63; call sequences on one ELFFile object (each answer = the stateless view of its own flags); pairs carrying the '
+        'legacy/gABI declared sizes off by multiples of 2^32 and 2^63; the malformed framings also in the file behind a supplementary / debug link; '
+        'a stored checksum word of 0 against a target whose CRC is not 0; call sequences on one ELFFile object (each answer = the stateless view of its own flags); pairs carrying the '
         'same NT_GNU_BUILD_ID note with per-byte CRC corruptions and payload modifications; two-hop chains debug link -> supplementary link (own builders and the '
         'dwz-produced test files whose DIEs use the alt/sup forms); keep-debug = unobserved sections made SHT_NOBITS), presence truth table over all subsets of {.debug_info, .zdebug_info, '
         '.eh_frame, .gnu_debuglink, .gnu_debugaltlink, .debug_sup} x strict x loader x class x byte order on section-only files, '
@@ -402,6 +403,7 @@ def gen(ctx):
         src = 'seed:' + name
         cases.append(('link', [src, 'ownid', 'flip%d' % [0, 8, 16, 24, 31, 5, 13, 21, 29][k % 9], 1, 1, 'plain']))
         cases.append(('link', [src, 'ownid', 'payload', 1, 1, 'plain']))
+        cases.append(('link', [src, ['own', 'ownid'][k % 2], 'zero', 1, 1, 'plain']))      # checksum word 0 is a checksum
         if k % 3 == 0:
             cases.append(('link', [src, 'ownid', 'right', 1, 1, 'plain']))
             cases.append(('link', [src, 'ownid', 'wrong', 1, 1, 'plain']))
@@ -527,6 +529,13 @@ def gen(ctx):
         for mut in ('size+1', 'size-1', 'size1', 'size0', 'size_huge', 'type', 'trunc_half', 'trunc_4', 'garbage', 'trailing',
                     'chdr_short', 'size+2^32', 'size+2^40', 'size_hi_ones'):
             cases.append(('gbad', [src, mut, rng.getrandbits(32)]))
+    # the same malformed framings in the file BEHIND a supplementary link / a debug link: still rejected
+    for k, src in enumerate(zsrcs[:3]):
+        for where in ('sup', 'link'):
+            for mut in ('magic0', 'size+1', 'trunc_half', 'size+2^32', 'short5', 'trailing'):
+                cases.append(('zbad', [src, mut, rng.getrandbits(32), where]))
+            for mut in ('size+1', 'size-1', 'type', 'trunc_half', 'trailing'):
+                cases.append(('gbad', [src, mut, rng.getrandbits(32), where]))
     # CRC-32
     cases.append(('crc', [b'123456789']))
     cases.append(('crc', [b'']))
@@ -927,6 +936,10 @@ def h_link(ctx, kind, a):
         crc = c[2]                                        # Spec: crc32_poly
         if crcmode == 'wrong':
             crc = (crc + 1) % 2 ** 32
+        elif crcmode == 'zero':
+            if crc == 0:
+                raise Skip('the CRC of the target is 0')
+            crc = 0
         elif crcmode == 'flip':
             crc ^= 1 << (len(dbg) % 32)
         elif crcmode.startswith('flip'):
@@ -1511,7 +1524,8 @@ ACCEPT = {'trailing', 'empty_payload'}
 
 def h_bad(ctx, kind, a):
     """malformed legacy (.zdebug) / gABI framings of .debug_info"""
-    src, mut, seed = a
+    src, mut, seed = a[:3]
+    where = a[3] if len(a) > 3 else 'primary'             # 'sup' / 'link': the bad file is reached through a link
     elf = _elf(_load(src))
     i = elf.index(b'.debug_info')
     if i is None:
@@ -1560,9 +1574,22 @@ def h_bad(ctx, kind, a):
         # the compression header runs into the end of the file: cut the image inside it and keep the tables in front
         e2 = U.Elf(timg)
         timg = _tables_first(e2, i, elf.chdr_size() - 3)
-    tbl = yield from _tbl_for([timg])
-    ((m, s_t),) = yield [_view_req(timg, None, 0, 0, False, tbl)]
-    iv = impl_view(timg, None, False, False)
+    top, fs = timg, None
+    if where != 'primary':
+        import binascii
+        host = _elf(_load(src))
+        lname = b'lnk/the.file'
+        if where == 'sup':
+            (lb,) = yield [['altlink_body' if seed % 2 else 'debugsup_body'] +
+                           ([lname, bytes(range(20))] if seed % 2 else [host.le, 5, 0, lname, bytes([20]) + bytes(range(20))])]
+            top = U.rewrite(host, add=[dict(name=b'.gnu_debugaltlink' if seed % 2 else b'.debug_sup', body=lb)])
+        else:
+            (lb,) = yield [['debuglink_body', host.le, lname, b'\0' * (3 - len(lname) % 4), binascii.crc32(timg)]]
+            top = strip_debug(host, lb)
+        fs = {lname: timg}
+    tbl = yield from _tbl_for([top] + list((fs or {}).values()))
+    ((m, s_t),) = yield [_view_req(top, fs, 0, int(bool(fs)), bool(fs), tbl)]
+    iv = impl_view(top, fs, False, bool(fs))
     spec = canon_spec(s_t)
     icore, iextra = split_impl(iv)
     mcore, mextra = split_model(m)
@@ -1570,6 +1597,8 @@ def h_bad(ctx, kind, a):
         key = 'gabi-declared-size-smaller-accepted'
     else:
         key = '%s-%s' % (kind, mut)
+    if where != 'primary':
+        key += '-in-%s-file' % where
     must = mut in MUST_REJECT
     want = 'rejected' if must else ('accepted' if mut in ACCEPT else ('rejected' if spec == 'rejected' else 'accepted'))
     verdict = lambda c: 'rejected' if c == 'rejected' else 'accepted'
